@@ -5,7 +5,9 @@ CONSTANTS
   FixLastCommitNil = TRUE
   FixPartIndexNeg = TRUE
   FixTotalNeg = TRUE
+  FixTotalMax = TRUE
   FixRecoverAuth = TRUE
+  FixBlockComponents = TRUE
 INVARIANTS TypeOK AlwaysRunning BoundedCatchup
 PROPERTIES InvalidIsStutter DirectOnlyNil
 ACTION_CONSTRAINT Edge
